@@ -35,6 +35,15 @@ def cbResize : CbPolicy := fun e s =>
   | .resize r c => if r ≥ 1 && c ≥ 1 then s.setSize r c else pure s
   | _ => pure s
 
+/-- a `Callbacks` that LOOKS at the `&mut Screen` it is handed: `resize` as `cbResize`; every other
+callback sets the width to a value computed from the cursor position and width it sees (the rows are
+kept).  Used by the correspondence check: a callback invoked at the wrong moment relative to the state
+changes around it leaves a different size behind. -/
+def cbProbe : CbPolicy := fun e s =>
+  match e with
+  | .resize r c => if r ≥ 1 && c ≥ 1 then s.setSize r c else pure s
+  | _ => s.setSize s.size.rows (1 + (s.cur.pos.row + s.cur.pos.col + s.size.cols) % 9)
+
 /-- `WrappedScreen` -/
 structure WS where
   screen : Screen
